@@ -166,4 +166,56 @@ theorem sin_cos_entry' (env : Env K) (hE : IsExp env.E) (hJ : env.J * env.J = -1
     rw [key]
     split_ifs <;> simp
 end
+
+/-! the `sin_cos` entry needs no order on `K` beyond `0 ≤ 1` (an ordered field has no `J` with `J² = −1`: the statement
+    over `[LinearOrder K] [IsStrictOrderedRing K]` above is kept for compatibility only; this is the usable form, instantiated
+    at ℂ in Proofs/LaplaceSemantics.lean) -/
+section
+variable {K : Type} [Field K] [LE K] [DecidableLE K] [DecidableEq K]
+
+theorem sin_cos_entry_gen (env : Env K) (hE : IsExp env.E) (hJ : env.J * env.J = -1) (h01 : (0 : K) ≤ 1) (h20 : (2 : K) ≠ 0)
+    (c al w ph tau : K) (isCos : Bool)
+    (h1 : env.s - al - env.J * w ≠ 0) (h2 : env.s - al + env.J * w ≠ 0) :
+    specValue env (.prod c [.exp al, .trig isCos w ph, .step 1 (-tau)])
+      = some (c * sinCosFormula env al isCos w ph tau) := by
+  cases isCos
+  · have key := sin_core env.E hE env.J hJ h20 env.s c al w ph (if 0 ≤ tau then tau else 0) h1 h2
+    simp only at key
+    simp only [specValue, sem, semProd, expandAtoms, semSimple, List.filterMap, deltaSel, stepSel, offSel, List.filter, isSmooth, applySmooth,
+      List.map, List.foldl, List.filterMap, sinCosFormula, two_eq, Option.map]
+    simp [h01]
+    rw [key]
+    split_ifs <;> simp
+  · have key := cos_core env.E hE env.J hJ h20 env.s c al w ph (if 0 ≤ tau then tau else 0) h1 h2
+    simp only at key
+    simp only [specValue, sem, semProd, expandAtoms, semSimple, List.filterMap, deltaSel, stepSel, offSel, List.filter, isSmooth, applySmooth,
+      List.map, List.foldl, List.filterMap, sinCosFormula, two_eq, Option.map]
+    simp [h01]
+    rw [key]
+    split_ifs <;> simp
+
+/-- `sin_cos` with a constant in the exponent, `c·e^{αt+β}·sin/cos(ωt+φ)·u(t−τ)`: the factor `e^β` of the code (`if beta != 0: E = exp(beta) * E`) -/
+theorem sin_cos_entry_beta' (env : Env K) (hE : IsExp env.E) (hJ : env.J * env.J = -1) (h01 : (0 : K) ≤ 1) (h20 : (2 : K) ≠ 0)
+    (c al be w ph tau : K) (isCos : Bool)
+    (h1 : env.s - al - env.J * w ≠ 0) (h2 : env.s - al + env.J * w ≠ 0) :
+    specValue env (.prod c [.expb al be, .trig isCos w ph, .step 1 (-tau)])
+      = some (c * (env.E be * sinCosFormula env al isCos w ph tau)) := by
+  have hsm : ∀ d : K, smul (env.E be) (expWeight env.E al [Term.ep c 0 0 d]) = expWeight env.E al [Term.ep (env.E be * c) 0 0 d] := by
+    intro d; simp [smul, expWeight, Term.expWeight, Term.smul, mul_assoc]
+  cases isCos
+  · have key := sin_core env.E hE env.J hJ h20 env.s (env.E be * c) al w ph (if 0 ≤ tau then tau else 0) h1 h2
+    simp only at key
+    simp only [specValue, sem, semProd, expandAtoms, semSimple, List.filterMap, deltaSel, stepSel, offSel, List.filter, isSmooth, applySmooth,
+      List.map, List.foldl, List.filterMap, sinCosFormula, two_eq, Option.map]
+    simp [h01]
+    rw [hsm, key]
+    split_ifs <;> ring_nf
+  · have key := cos_core env.E hE env.J hJ h20 env.s (env.E be * c) al w ph (if 0 ≤ tau then tau else 0) h1 h2
+    simp only at key
+    simp only [specValue, sem, semProd, expandAtoms, semSimple, List.filterMap, deltaSel, stepSel, offSel, List.filter, isSmooth, applySmooth,
+      List.map, List.foldl, List.filterMap, sinCosFormula, two_eq, Option.map]
+    simp [h01]
+    rw [hsm, key]
+    split_ifs <;> ring_nf
+end
 end Lcapy.Laplace
